@@ -224,7 +224,7 @@ func sweepPositiveDetected(r *ev.Run, k kase, res outcome) {
 	}
 	r.SetAdd("lensweep:detected(entry point|kind|len|placement|key)", fmt.Sprintf("%s|%s|%s|%s|%s", k.tgt.name, k.kind, l, k.placement, keyClass(k.keyAge)))
 	r.Distinct(fmt.Sprintf("lensweep-pos|%s|%s|%s|%s|len=%s|%s", k.st.name, k.tgt.name, k.kind, keyClass(k.keyAge), l, k.placement))
-	r.SampleN("lensweep:pos:"+k.tgt.group+":"+l, 1, map[string]interface{}{"case": "positive (data-length sweep)", "keystore": k.st.name, "epoch": k.epoch, "entry_point": k.tgt.name, "class": k.class,
+	r.SampleN("lensweep:pos:"+l, 1, map[string]interface{}{"case": "positive (data-length sweep)", "keystore": k.st.name, "epoch": k.epoch, "entry_point": k.tgt.name, "class": k.class,
 		"reader": k.note, "offset": k.offset, "input_length": len(k.input), "input": ev.Hex(k.input), "callback_events(seq,goroutine)": res.Events, "operation_goroutine": res.OpGid,
 		"delivery_seq": res.DeliverySeq, "delivered_digest": digest(res.Out), "err": fmt.Sprint(res.Err)})
 }
@@ -253,7 +253,7 @@ func sweepNegativeSilent(r *ev.Run, k kase, res outcome) {
 		// not this monitor's property (C01/C02 judge who may read what); recorded so that it is visible
 		r.Count("lensweep:negative_read_by_non_owner:delivered_decrypted", 1)
 	}
-	r.SampleN("lensweep:neg:"+k.tgt.group+":"+l, 1, map[string]interface{}{"case": "negative (data-length sweep)", "keystore": k.st.name, "entry_point": k.tgt.name, "class": k.class, "owner": k.owner,
+	r.SampleN("lensweep:neg:"+l, 1, map[string]interface{}{"case": "negative (data-length sweep)", "keystore": k.st.name, "entry_point": k.tgt.name, "class": k.class, "owner": k.owner,
 		"reader": k.note, "input_length": len(k.input), "input": ev.Hex(k.input), "callbacks": 0, "delivery_seq": res.DeliverySeq, "delivered_digest": digest(res.Out), "decrypted_for_owner": decrypted, "err": fmt.Sprint(res.Err)})
 }
 
